@@ -187,6 +187,60 @@ def appendTextComment (loc : AppendLocation) (content : Bytes) (f : File) : File
   if text.isEmpty then f
   else attachComment loc text (f.mapTokens (Token.shiftTokenLine (linesCount text)))
 
+/-! ### the AST as `impl_token_fns!` sees it (src/nodes/mod.rs)
+
+A node has token-bearing fields in three macro sections — `target` (plain fields), `iter`
+(`Option`/`Vec` fields), `iter_flatten` (`Vec<Option<Token>>`, only `BlockTokens.semicolons`) — and
+fields that are nodes themselves, on which the same generated method is called (`children`).
+The generated methods `clear_comments`, `clear_whitespaces`, `filter_comments` apply one per-token
+operation in each section; `mapSections` keeps the three sections apart so that "the same operation
+in every section" is a statement and not a definition. -/
+
+inductive Node where
+  | mk (target : List Token) (iter : List Token) (iterFlatten : List (Option Token))
+       (children : List Node)
+  deriving Inhabited
+
+mutual
+/-- every token position of the node, section by section, then the children -/
+def Node.tokens : Node → List Token
+  | .mk t i f c => t ++ i ++ f.filterMap id ++ Node.tokensList c
+def Node.tokensList : List Node → List Token
+  | [] => []
+  | n :: r => n.tokens ++ Node.tokensList r
+end
+
+mutual
+/-- the shape of every method `impl_token_fns!` generates: `gt` on the `target` fields, `gi` in the
+`iter` loops, `gf` in the `iter_flatten` loops, the same method on node-valued fields -/
+def Node.mapSections (gt gi gf : Token → Token) : Node → Node
+  | .mk t i f c => .mk (t.map gt) (i.map gi) (f.map (Option.map gf)) (Node.mapSectionsList gt gi gf c)
+def Node.mapSectionsList (gt gi gf : Token → Token) : List Node → List Node
+  | [] => []
+  | n :: r => n.mapSections gt gi gf :: Node.mapSectionsList gt gi gf r
+end
+
+/-- `impl_token_fns!`: `clear_comments` -/
+def Node.clearComments : Node → Node :=
+  Node.mapSections Token.clearComments Token.clearComments Token.clearComments
+/-- `impl_token_fns!`: `clear_whitespaces` -/
+def Node.clearWhitespaces : Node → Node :=
+  Node.mapSections Token.clearWhitespaces Token.clearWhitespaces Token.clearWhitespaces
+/-- `impl_token_fns!`: `filter_comments(filter)` -/
+def Node.filterComments (keep : Trivia → Bool) : Node → Node :=
+  Node.mapSections (Token.filterComments keep) (Token.filterComments keep) (Token.filterComments keep)
+
+/-- `RemoveComments::flawless_process` on the tree (the visitor reaches every node: assumption A1) -/
+def removeCommentsTree {Pat : Type} (isMatch : Pat → Bytes → Bool) (except : List Pat) (n : Node) : Node :=
+  if except.isEmpty then n.clearComments
+  else n.filterComments fun x => except.any fun p => isMatch p x.content
+
+/-- `RemoveSpaces::flawless_process` on the tree -/
+def removeSpacesTree (n : Node) : Node := n.clearWhitespaces
+
+/-- the token model of a tree: its token positions in traversal order -/
+def Node.toFile (n : Node) : File := ⟨n.tokens, [], none⟩
+
 /-! ### literal patterns: the sub-language of `except` regexes the driver evaluates itself -/
 
 /-- `^lit`, `lit$`, `^lit$`, `lit` with `lit` free of regex metacharacters -/
